@@ -125,7 +125,7 @@ func guardedBy1(p *Prog, r *Report, rule string, specs []guardSpec) {
 
 func checkC18(p *Prog, r *Report) {
 	r.NotCov = append(r.NotCov,
-		"fields that are never locked anywhere (client.codec/keyspace confined to the connection's reader, Cluster state confined to stayConnected): no sound static argument separates confinement from a race here; the dynamic race detector is the tool for them",
+		"fields that are never locked anywhere and rely on confinement (client.keyspace/compression confined to the connection's reader, Cluster state confined to stayConnected): no sound static argument separates confinement from a race here; the dynamic race detector is the tool for them",
 		"happens-before through channels, WaitGroups and goroutine start beyond the frozen exceptions")
 	guardedBy1(p, r, "C18.guarded-by", guardTable)
 	r.Floor("C18.guarded-by", 25, "(field, function) access groups")
